@@ -47,7 +47,7 @@ func c17AddrPool(n fwrNode, peers []fwrPeer) []netip.Addr {
 }
 
 func TestC17_AddressAuthenticity(t *testing.T) {
-	vk.Check(t, 2500, func(rt *rapid.T) {
+	vk.Check(t, 5000, func(rt *rapid.T) {
 		n := fwrGenNode(rt)
 		np := rapid.IntRange(1, 3).Draw(rt, "nPeers")
 		peers := make([]fwrPeer, np)
